@@ -553,7 +553,7 @@ func fsCalls(c Case) int {
 // ---------------------------------------------------------------------------
 // generators
 
-var benchNames = []string{"A", "B", "Enc", "Dec/size=1", "Dec/big", "Sort-8", "Sort-16", "Sort/n=4-8"}
+var benchNames = []string{"A", "B", "Enc", "Dec/size=1", "Dec/big", "Sort-8", "Sort-16", "Sort/n=4-8", "Read-only-4", "Enc/utf-8-4", "x86-64"}
 var labelKeys = []string{"goos", "goarch", "pkg", "cpu", "commit", "branch", "note", "goos", "pkg", "upload", "upload-part", "upload-time"}
 var junk = []string{"PASS", "ok  \tgolang.org/x/foo\t0.123s", "", "--- BENCH: BenchmarkA", "    bench_test.go:12: note", "BenchmarkNoFields", " BenchmarkIndented 1 2 ns/op", "FAIL", "goos linux"}
 
@@ -580,7 +580,7 @@ func genFile(t *rapid.T, maxLines int, wide bool) File {
 		for rapid.IntRange(0, 3).Draw(t, "pre") == 0 {
 			switch rapid.IntRange(0, 3).Draw(t, "prekind") {
 			case 0, 1:
-				f.Rows = append(f.Rows, Row{K: 1, A: rapid.SampledFrom(labelKeys).Draw(t, "lk"), B: rapid.StringMatching(`[a-z0-9]{1,6}`).Draw(t, "lv")})
+				f.Rows = append(f.Rows, Row{K: 1, A: rapid.SampledFrom(labelKeys).Draw(t, "lk"), B: rapid.StringMatching(`[a-z0-9]{1,6}`).Draw(t, "lv"), Tab: rapid.IntRange(0, 5).Draw(t, "labeltab") == 0})
 			case 2:
 				f.Rows = append(f.Rows, Row{K: 2, A: rapid.SampledFrom(labelKeys).Draw(t, "lk")})
 			default:
